@@ -2,7 +2,9 @@ package c19
 
 import (
 	"fmt"
+	"regexp"
 	"sort"
+	"strconv"
 	"strings"
 	"testing"
 
@@ -63,7 +65,7 @@ func checkFlag(fi flagInfo) error {
 }
 
 func TestC19Registered(t *testing.T) {
-	r := h.NewRecorder(t, "C19", "registered", "exhaustive enumeration of every option (local and persistent) of every command and sub-command reachable from the root command after all init() functions ran: pflag's DefValue (what the help template prints) must equal the current value of the option's storage (what an invocation without the option uses); non-trivial = the option's storage variable is registered by >= 2 commands (the class in which a foreign default can win)")
+	r := h.NewRecorder(t, "C19", "registered", "exhaustive enumeration of every option (local and persistent) of every command and sub-command reachable from the root command after all init() functions ran: (i) pflag's DefValue must equal the current value of the option's storage (what an invocation without the option uses), and (ii) the line for the option in the Flags / Global Flags section of the text printed by `gotree <path> --help` (the real binary) must exist and its '(default x)' suffix (absent = zero value) must denote that same value, compared by type; non-trivial = the option's storage variable is registered by >= 2 commands (the class in which a foreign default can win)")
 	flags := allFlags()
 	var rc FlagCase
 	if replaying, mine := r.ReplayCase(&rc); replaying {
@@ -107,6 +109,44 @@ func TestC19Registered(t *testing.T) {
 	r.Extra("flags", len(flags))
 	r.Extra("storage_variables_shared_by_several_commands", shared)
 	r.Extra("shared_variables_with_different_documented_defaults", conflicting)
+	// the help text itself: what `gotree <command> --help` prints as default must be the value used
+	if cli.Available() {
+		helps := map[*cobra.Command]string{}
+		nhelp := 0
+		for _, fi := range flags {
+			if fi.f.Name == "help" || fi.f.Hidden {
+				continue
+			}
+			txt, ok := helps[fi.cmd]
+			if !ok {
+				args := append(strings.Fields(strings.TrimPrefix(fi.path, "gotree")), "--help")
+				res := cli.Run(cli.Scratch(), "", args...)
+				txt = res.Stdout + res.Stderr
+				helps[fi.cmd] = txt
+			}
+			line, found := helpLine(txt, fi.f.Name)
+			if !found {
+				continue // the option is not listed in this command's help
+			}
+			nhelp++
+			used := fi.f.Value.String()
+			msg := helpDisagrees(line, fi.f.Value.Type(), used)
+			if kf := r.Known(knownItolFormat); kf != nil && fi.path == "gotree download itol" && fi.f.Name == "format" {
+				// known finding (see known_findings.json): excluded by its trigger, reported while it still fails
+				r.Excluded(knownItolFormat)
+				if msg != "" {
+					r.KnownLine(kf)
+				} else {
+					fmt.Fprintf(h.Stdout, "VERIF-NOTE known finding %s no longer reproduces\n", knownItolFormat)
+				}
+				continue
+			}
+			if msg != "" {
+				r.Fail(FlagCase{fi.path, fi.f.Name}, "%s --help: %s (line %q)", fi.path, msg, strings.TrimSpace(line))
+			}
+		}
+		r.Extra("options_compared_with_the_printed_help_text", nhelp)
+	}
 	failed := 0
 	for _, fi := range flags {
 		c := FlagCase{fi.path, fi.f.Name}
@@ -339,4 +379,54 @@ func TestC19OmittedAll(t *testing.T) {
 	if h.NShards() == 1 {
 		r.Exhaustive()
 	}
+}
+
+const knownItolFormat = "K01-download-itol-format-help"
+
+// helpLine returns the line of the options section of a help text that documents --name.
+func helpLine(help, name string) (string, bool) {
+	re := regexp.MustCompile(`^\s+(-\w, )?--` + regexp.QuoteMeta(name) + `(\s|$)`)
+	inFlags := false
+	for _, l := range strings.Split(help, "\n") {
+		if l == "Flags:" || l == "Global Flags:" {
+			inFlags = true
+			continue
+		}
+		if inFlags && re.MatchString(l) {
+			return l, true
+		}
+	}
+	return "", false
+}
+
+// helpDisagrees tells how the default printed at the end of a help line (pflag appends
+// ` (default X)`, strings quoted, nothing for zero values) differs from the value used.
+func helpDisagrees(line, typ, used string) string {
+	t := strings.TrimRight(line, " ")
+	shown, has := "", false
+	if i := strings.LastIndex(t, " (default "); i >= 0 && strings.HasSuffix(t, ")") {
+		lit := t[i+len(" (default ") : len(t)-1]
+		switch typ {
+		case "string":
+			if len(lit) >= 2 && lit[0] == '"' && lit[len(lit)-1] == '"' {
+				shown, has = lit[1:len(lit)-1], true
+			}
+		case "bool":
+			if lit == "true" || lit == "false" {
+				shown, has = lit, true
+			}
+		default:
+			if _, err := strconv.ParseFloat(lit, 64); err == nil {
+				shown, has = lit, true
+			}
+		}
+	}
+	zero := used == "" || used == "0" || used == "false"
+	switch {
+	case has && shown != used:
+		return fmt.Sprintf("the help text shows the default %q, an invocation without the option uses %q", shown, used)
+	case !has && !zero:
+		return fmt.Sprintf("the help text shows no default, an invocation without the option uses %q", used)
+	}
+	return ""
 }
